@@ -205,13 +205,13 @@ def c11(tier):
 
 
 def c17(tier):
-    combos = [(1, 0), (2, 0), (2, 1)] if tier == "quick" else [(1, 0), (2, 0), (2, 1), (3, 0)]
+    combos = [(1, 0), (2, 0), (2, 1)]
     jobs = [Job("h_c11::adapter_contract", c, {"hash_order": "fixed"}, budget_s=3000, validate=40) for c in combos]
     # directory backend over the file-system model, Deflate wrapper over memory / directory (codec abstracted)
     more = [(0, 1, 5), (1, 1, 5), (2, 1, 5), (1, 2, 5, 2), (0, 2, 4, 2)] if tier == "quick" else [(0, 1, 5), (1, 1, 5), (2, 1, 5), (1, 2, 5), (0, 2, 5, 2), (2, 2, 4, 2), (0, 2, 4)]
     for c in more:
         jobs.append(Job("h_c17::backend_contract", c, {"hash_order": "fixed"}, budget_s=3000, validate=30))
-    return dict(jobs=jobs, bounds={"operations": "1..3 writes (the later ones may hit an existing key) with symbolic keys <word{1,2}>[.delta|.pack|.delta.delta] and symbolic contents of 0..3 printable bytes; whole reads; "
+    return dict(jobs=jobs, bounds={"operations": "1..2 writes (the later one may hit an existing key) with symbolic keys <word{1,2}>[.delta|.pack|.delta.delta] and symbolic contents of 0..3 printable bytes; whole reads; "
                                                  "one ranged read with symbolic offset 0..4 and length 1..4; read of a missing key; listing by '', '.delta', '.pack'",
                                    "backends": "MemoryAdapter directly and through the Arc<RwLock<Box<dyn Adapter>>> wrapper (adapter.rs); FilesystemAdapter over an ideal in-memory file-system model incl. a second instance on the "
                                                "same directory; Flate2Adapter over MemoryAdapter and over FilesystemAdapter with the Deflate codec abstracted to an invertible framing",
